@@ -25,7 +25,7 @@ VAL = {
     'str': ZS.STR,
     'uri': ZS.URI,
     # a unit never begins with e/E (exponent) or "_" (digit separator): the grammar's own maximal munch would read them otherwise
-    'number': r'-?[0-9][0-9_]*(\.[0-9][0-9_]*)?([eE][+-]?[0-9][0-9_]*)?(([a-df-zA-DF-Z%/$]|[\u0080-\U0010ffff])([a-zA-Z%_/$]|[\u0080-\U0010ffff])*)?',
+    'number': r'(-?[0-9][0-9_]*(\.[0-9][0-9_]*)?([eE][+-]?[0-9][0-9_]*)?(([a-df-zA-DF-Z%/$]|[\u0080-\U0010ffff])([a-zA-Z%_/$]|[\u0080-\U0010ffff])*)?|INF|-INF|NaN)',
     'date': ZS.DATE,
     'time': ZS.TIME.replace(r'(\.[0-9]+)?', r'(\.[0-9]{1,6})?'),
 }
@@ -102,7 +102,7 @@ def lenient_kinds():
     k['bool'] = r'(true|false)'
     d = r'[0-9_]+'          # digit runs may hold '_' anywhere; float() rejects the malformed ones afterwards (ValueError)
     dec = r'-?' + d + r'(\.' + d + r')?([eE][+-]?' + d + r')?'
-    k['number'] = r'(' + dec + r'|INF|-INF|NaN|Nan)'
+    k['number'] = r'(' + dec + r'|INF|-INF|NaN)'
     k['quantity'] = dec + ZS.UNIT
     W = WS
     k['ref'] = r'@' + W + r'[a-zA-Z0-9_:\-.~\d]*(' + W + ZS.STR + r')?'
